@@ -403,21 +403,22 @@ class Parser:
                 self.pop_token()
                 return None
 
+            # Only the items pushed while parsing this subcircuit belong to it.
+            num_items_before: int = self.get_stack_length()
+
             while type(self.peek(0)) not in [Comma, Colon, RCurly]:
                 if self.peek(0) is None:
                     raise InsufficientTokens()
                 self.main_loop()
 
-            elements: List[Element] = []
+            elements: List[Union[Element, Connection]] = []
 
-            while not self.is_stack_empty():
+            while self.get_stack_length() > num_items_before:
                 con = self.pop_stack()
-                if not isinstance(con, Element):
-                    raise TypeError(f"Expected an Element instead of {con=}")
+                if not (isinstance(con, Element) or isinstance(con, Connection)):
+                    raise UnexpectedToken(con)
 
                 elements.insert(0, con)
-
-            elements.reverse()
 
             return Series(elements)
 
